@@ -763,3 +763,25 @@ func checkKept(q *query, kept []string, full resultMap, emptyCandidates int) (pr
 	}
 	return first, false, false
 }
+
+// keptVerdict judges the kept groups of a limited statement. visibleLenient is the number of groups in the answer whose
+// only values are binary expressions with an operand without data (lindb fabricates them with 0: such a group is a real
+// row for lindb's limit, the open C12/no-data cause); candidates the number of groups that may exist without any data.
+// kind: "" = admissible over the groups with data; "lenient" = admissible only because visible groups of the first kind
+// hold result slots; "empty" = admissible only if invisible groups without data hold result slots (the repaired defect).
+func keptVerdict(q *query, kept []string, solid resultMap, visibleLenient, candidates int) (problem string, ties bool, kind string) {
+	problem, ties, via := checkKept(q, kept, solid, visibleLenient)
+	if problem == "" {
+		if via {
+			return "", ties, "lenient"
+		}
+		return "", ties, ""
+	}
+	p2, t2, via2 := checkKept(q, kept, solid, candidates)
+	if p2 == "" && via2 {
+		return "", t2, "empty"
+	}
+	return problem, false, ""
+}
+
+const lenientSlotClass = "C12/no-data/limit-slot-held-by-a-group-whose-only-values-are-binary-expressions-with-an-operand-without-data"
